@@ -333,7 +333,7 @@ func genProgram(tp *simrt.Tape, cfg gp.SimulatorConfig, legalPct int) textCase {
 	for i := 0; i < nLabels; i++ {
 		g.labels = append(g.labels, g.name("l"))
 	}
-	special := tp.Draw("prog.special", 36)
+	special := tp.Draw("prog.special", 40)
 	for i := 0; i < nItems; i++ {
 		g.item(0)
 	}
@@ -351,6 +351,16 @@ func genProgram(tp *simrt.Tape, cfg gp.SimulatorConfig, legalPct int) textCase {
 		}
 		g.lines = append(g.lines, pair...)
 		g.notes = append(g.notes, "mirror-image-operands")
+	case 16: // very many short lines (token counts far above anything the suite assembles)
+		n := []int{400, 1000, 2600}[tp.Draw("manylines.n", 3)]
+		for i := 0; i < n; i++ {
+			g.lines = append(g.lines, "dat 0")
+		}
+		g.expTok += 6 * n
+		g.notes = append(g.notes, "very-many-lines")
+	case 17: // Go identifiers and non-ASCII digits where numbers are expected
+		g.lines = append(g.lines, []string{"dat nil", "dat ٣", "mov ٣, 1", "jmp true", "x equ iota\ndat x", ";assert nil", ";assert ٣", "org nil", "dat 1٣", "dat ０"}[tp.Draw("goident.kind", 10)])
+		g.notes = append(g.notes, "go-identifier-or-unicode-digit")
 	case 12: // a lone self-referential EQU in front of everything (also of the first FOR)
 		a := g.name("c")
 		g.lines = append([]string{a + " equ " + a + "+1"}, g.lines...)
@@ -391,7 +401,7 @@ func genProgram(tp *simrt.Tape, cfg gp.SimulatorConfig, legalPct int) textCase {
 			g.notes = append(g.notes, "label-redefined")
 		}
 	case 4: // FOR with bad count
-		g.lines = append(g.lines, []string{"for 1/0", "for nosuch", "x 5\nfor 1", "for", "for )", "for 2 2"}[tp.Draw("badfor.kind", 6)], "dat 0", "rof")
+		g.lines = append(g.lines, []string{"for 1/0", "for nosuch", "x 5\nfor 1", "for", "for )", "for 2 2", "for nil", "for true", "for int", "gx equ nil\nfor gx", "for iota", "for ٣", "for len"}[tp.Draw("badfor.kind", 13)], "dat 0", "rof")
 		g.notes = append(g.notes, "for-bad-count")
 	case 5: // unterminated FOR
 		g.lines = append(g.lines, "for 2", "dat 1")
@@ -462,6 +472,7 @@ var soupVocab = []string{
 	"mov.i", "add.ab", "dat.f", "jmp.x", "mov.", ".i", "equ", "org", "end", "for", "rof", "FOR", "ROF", "EQU", "END",
 	"#", "$", "@", "<", ">", "{", "}", "*", "+", "-", "/", "%", "(", ")", ",", ":", "==", "!=", "<=", ">=", "&&", "||", "=", "&", "|", "!",
 	"0", "1", "2", "3", "7", "00", "007", "8000", "99999", "4294967296", "99999999999999999999",
+	"nil", "int", "true", "false", "iota", "len", "string", "error", "any", "٣", "０", "Ⅷ", "x٣", "٣x",
 	"a", "b", "x", "lbl", "CORESIZE", "MAXLENGTH", "MAXPROCESSES", "MINDISTANCE", "CURLINE", "_", "a_b", "é", "x1",
 	";assert 1", ";assert 0", ";assert a", ";assert CORESIZE==1", ";assert (", ";name n", ";author", ";strategy", ";", ";redcode",
 	"\n", "\n", "\n", "\r\n", "\t", " ", "\x1a", "\x00", "~", "\"", "'", "\\",
